@@ -788,6 +788,23 @@ func ruleC07Routes(c *Checker) {
 					}
 				}
 			})
+			ruleFns, regForm := srcTypeRules(p)
+			if len(lookupOK) == 0 && regForm == "switch over the type name" {
+				// the registry written as a switch: the stored type passed one of the x == "k" tests of a registered k
+				for _, b := range fn.Blocks {
+					ifi, ok := b.Instrs[len(b.Instrs)-1].(*ssa.If)
+					if !ok {
+						continue
+					}
+					bo, ok := ifi.Cond.(*ssa.BinOp)
+					if !ok || bo.Op != token.EQL || canon(bo.X) != canon(st.Val) {
+						continue
+					}
+					if k, ok := constString(bo.Y); ok && ruleFns[k] != nil {
+						lookupOK = append(lookupOK, Edge{b, 0})
+					}
+				}
+			}
 			c.check(guarded(st.Block(), lookupOK), R, name, "source type registered", pos, "past the found edge of the type-registry lookup for the stored type", "a RemotePackage can be built with a source type that is not in the registry")
 			// (2) PrepareURL nil edge, invoked on the looked-up implementation
 			var prep *ssa.Call
@@ -798,11 +815,32 @@ func ruleC07Routes(c *Checker) {
 					}
 				}
 			}
+			var okE []Edge
+			if prep == nil {
+				// the looked-up value is the rule function itself, or the arms of the switch call the rule functions
+				isRule := map[*ssa.Function]bool{}
+				for _, f := range ruleFns {
+					isRule[f] = true
+				}
+				for _, ci := range callsIn(fn) {
+					cl, ok := ci.(*ssa.Call)
+					if !ok || cl.Call.IsInvoke() {
+						continue
+					}
+					dyn := cl.Call.StaticCallee() == nil && impl != nil && canon(cl.Call.Value) == canon(impl)
+					if dyn || isRule[cl.Call.StaticCallee()] {
+						prep = cl
+						e, _ := okEdgesOfCall(cl)
+						okE = append(okE, e...)
+					}
+				}
+			} else {
+				okE, _ = okEdgesOfCall(prep)
+			}
 			if prep == nil {
 				c.fail(R, name, "PrepareURL checked", pos, "the per-type URL rules (PrepareURL of the registered implementation) are not applied before construction")
 				continue
 			}
-			okE, _ := okEdgesOfCall(prep)
 			c.check(guarded(st.Block(), okE), R, name, "PrepareURL checked", pos, "past the nil edge of the implementation's PrepareURL", "a RemotePackage can be built although PrepareURL rejected the URL")
 			// (3) stored URL = checked URL
 			okURL := false
@@ -974,6 +1012,125 @@ func registryImpls(p *Prog) map[string]*types.Named {
 	return out
 }
 
+// srcTypeRules: the function that applies the per-type URL rules, for each registered source type. Three
+// spellings are read: a map of implementations of an interface with a PrepareURL method (the reference tree),
+// a map of functions func(*url.URL) error, and a switch over the type name in the constructor whose arms call
+// such functions.
+func srcTypeRules(p *Prog) (map[string]*ssa.Function, string) {
+	out := map[string]*ssa.Function{}
+	if impls := registryImpls(p); len(impls) > 0 {
+		for k, n := range impls {
+			if fn := p.Fn(addrPkg, n.Obj().Name()+".PrepareURL"); fn != nil {
+				out[k] = fn
+			}
+		}
+		return out, "map of implementations"
+	}
+	isRuleFn := func(f *ssa.Function) bool {
+		if f == nil || !p.InModule(f) || f.Signature.Recv() != nil {
+			return false
+		}
+		sg := f.Signature
+		if sg.Params().Len() != 1 || sg.Results().Len() != 1 || !isErrorType(sg.Results().At(0).Type()) {
+			return false
+		}
+		return strings.HasSuffix(sg.Params().At(0).Type().String(), "net/url.URL")
+	}
+	for _, fn := range p.Funcs {
+		if !isInitFunc(fn) || fn.Package() == nil || fn.Package().Pkg.Path() != p.PkgPath(addrPkg) {
+			continue
+		}
+		eachInstr(fn, func(in ssa.Instruction) {
+			mu, ok := in.(*ssa.MapUpdate)
+			if !ok {
+				return
+			}
+			k, ok := constString(mu.Key)
+			if !ok {
+				return
+			}
+			v := mu.Value
+			if ct, ok := v.(*ssa.ChangeType); ok {
+				v = ct.X
+			}
+			if f, ok := v.(*ssa.Function); ok && isRuleFn(f) {
+				out[k] = f
+			}
+		})
+	}
+	if len(out) > 0 {
+		return out, "map of functions"
+	}
+	// a switch over the type name: x == "k" tests whose true edge leads to a call of a rule function
+	for _, fn := range p.Funcs {
+		if fn.Package() == nil || fn.Package().Pkg.Path() != p.PkgPath(addrPkg) {
+			continue
+		}
+		for _, b := range fn.Blocks {
+			ifi, ok := b.Instrs[len(b.Instrs)-1].(*ssa.If)
+			if !ok {
+				continue
+			}
+			bo, ok := ifi.Cond.(*ssa.BinOp)
+			if !ok || bo.Op != token.EQL {
+				continue
+			}
+			k, ok := constString(bo.Y)
+			if !ok {
+				continue
+			}
+			seen := map[*ssa.BasicBlock]bool{}
+			work := []*ssa.BasicBlock{b.Succs[0]}
+			for len(work) > 0 {
+				x := work[len(work)-1]
+				work = work[:len(work)-1]
+				if seen[x] {
+					continue
+				}
+				seen[x] = true
+				found := false
+				for _, in := range x.Instrs {
+					if cl, ok := in.(*ssa.Call); ok && isRuleFn(cl.Call.StaticCallee()) {
+						if _, dup := out[k]; !dup {
+							out[k] = cl.Call.StaticCallee()
+						}
+						found = true
+						break
+					}
+					// or the arm picks the implementation whose PrepareURL is then invoked
+					if mi, ok := in.(*ssa.MakeInterface); ok {
+						if n, ok := types.Unalias(mi.X.Type()).(*types.Named); ok {
+							if _, _, has := typesLookupMethod(n, "PrepareURL"); has {
+								if f := p.Fn(addrPkg, n.Obj().Name()+".PrepareURL"); f != nil {
+									if _, dup := out[k]; !dup {
+										out[k] = f
+									}
+									found = true
+									break
+								}
+							}
+						}
+					}
+				}
+				if !found && len(seen) < 6 {
+					work = append(work, x.Succs...)
+				}
+			}
+		}
+	}
+	return out, "switch over the type name"
+}
+
+// srcTypeRuleFuncs: the distinct rule functions, sorted.
+func srcTypeRuleFuncs(p *Prog) []*ssa.Function {
+	m, _ := srcTypeRules(p)
+	set := map[*ssa.Function]bool{}
+	for _, f := range m {
+		set[f] = true
+	}
+	return sortedFuncs(set)
+}
+
 func typesLookupMethod(n *types.Named, name string) (types.Object, []int, bool) {
 	obj, idx, _ := types.LookupFieldOrMethod(n, true, n.Obj().Pkg(), name)
 	return obj, idx, obj != nil
@@ -989,7 +1146,7 @@ func ruleC07Schemes(c *Checker) {
 	const R = "C07.schemes"
 	c.rule(R, "Partial evaluation of each registered implementation's PrepareURL over the scheme alphabet {http, https, ssh, git, ftp, file, \"\", HTTPS, other}: the schemes for which a nil return is reachable are within policy (git: https, ssh; http/https: https) and the policy's schemes are still accepted. Every registry entry has a policy line.", 9)
 	p := c.P
-	impls := registryImpls(p)
+	impls, _ := srcTypeRules(p)
 	if len(impls) == 0 {
 		c.anchorMissing(R, "the remote source type registry (map literal in package init)")
 		return
@@ -1006,11 +1163,7 @@ func ruleC07Schemes(c *Checker) {
 			c.fail(R, "registry", "source type "+k, "-", "a source type is registered for which the transport policy table has no entry")
 			continue
 		}
-		fn := p.Fn(addrPkg, impls[k].Obj().Name()+".PrepareURL")
-		if fn == nil {
-			c.fail(R, "registry", "source type "+k, "-", "no PrepareURL body found for "+impls[k].Obj().Name())
-			continue
-		}
+		fn := impls[k]
 		for _, s := range alphabet {
 			kv := absConst(constant.MakeString(s))
 			ev := p.newEvaluator(func(f *ssa.Function, v ssa.Value) (absVal, bool) {
@@ -1062,10 +1215,15 @@ func ruleC07Query(c *Checker) {
 	const R = "C07.query"
 	c.rule(R, "The per-type query rules guard every acceptance: in the archive implementation every nil return lies past the passing edge of the 'checksum' rejection (unconditionally) and past either the archive-value test (tar.gz / tgz) or the path-suffix test (.tar.gz / .tgz), the suffix deciding only on the side of the presence test where no 'archive' argument exists; in the git implementation every nil return lies after the loop that rejects any key other than \"ref\" and repeated values. A rejecting test is an If one of whose edges leads only to error returns.", 5)
 	p := c.P
-	impls := registryImpls(p)
+	impls, _ := srcTypeRules(p)
 	done := map[*ssa.Function]bool{}
-	for k, n := range impls {
-		fn := p.Fn(addrPkg, n.Obj().Name()+".PrepareURL")
+	var implKeys []string
+	for k := range impls {
+		implKeys = append(implKeys, k)
+	}
+	sort.Strings(implKeys)
+	for _, k := range implKeys {
+		fn := impls[k]
 		if fn == nil || done[fn] {
 			continue
 		}
